@@ -16,6 +16,7 @@ package scanner
 
 import (
 	"container/list"
+	"sync"
 	"time"
 )
 
@@ -24,7 +25,9 @@ type compactRecord struct {
 	time     time.Time
 }
 
+// compactRecordQueue is shared by all compactions of a scanner, which may run concurrently
 type compactRecordQueue struct {
+	mu   sync.Mutex
 	list *list.List
 }
 
@@ -35,14 +38,22 @@ func newCompactRecordQueue() *compactRecordQueue {
 }
 
 func (c *compactRecordQueue) push(cr *compactRecord) {
+	c.mu.Lock()
+	defer c.mu.Unlock()
 	c.list.PushBack(cr)
 }
 
 func (c *compactRecordQueue) pop() {
-	c.list.Remove(c.list.Front())
+	c.mu.Lock()
+	defer c.mu.Unlock()
+	if front := c.list.Front(); front != nil {
+		c.list.Remove(front)
+	}
 }
 
 func (c *compactRecordQueue) head() *compactRecord {
+	c.mu.Lock()
+	defer c.mu.Unlock()
 	elem := c.list.Front()
 	if elem == nil {
 		return nil
